@@ -20,6 +20,8 @@ package splunk
 import (
 	"encoding/json"
 	"fmt"
+	"math"
+	"strconv"
 
 	"github.com/siglens/siglens/pkg/config"
 	writer "github.com/siglens/siglens/pkg/es/writer"
@@ -132,6 +134,22 @@ func getPLE(record map[string]interface{}, myid int64, tsKey *string, jsParsingS
 	ple, err := segwriter.GetNewPLE(recordAsBytes, tsNow, indexNameIn, tsKey, jsParsingStackbuf[:])
 	if err != nil {
 		return fmt.Errorf("Failed to get new PLE: %v", err), fasthttp.StatusServiceUnavailable, nil
+	}
+
+	// HEC carries the event time in "time": epoch seconds, possibly fractional, as a number or a numeric string
+	if _, hasTsKey := record[*tsKey]; !hasTsKey {
+		var secs float64
+		switch t := record["time"].(type) {
+		case float64:
+			secs = t
+		case json.Number:
+			secs, _ = t.Float64()
+		case string:
+			secs, _ = strconv.ParseFloat(t, 64)
+		}
+		if secs > 0 {
+			ple.SetTimestamp(uint64(math.Round(secs * 1000)))
+		}
 	}
 
 	return nil, fasthttp.StatusOK, ple
